@@ -348,6 +348,47 @@ def run_terminal(ctx):
         shutil.rmtree(tmp, ignore_errors=True)
 
 
+def run_positioned_stdin(ctx):
+    """The document on standard input where standard input is a regular file that the caller has already read a header
+    from (`{ read header; json path ...; } < records.txt`): the document is what is LEFT on the stream, and the tool must
+    answer for that."""
+    import jsonpath
+    from rt.harness import REPO, VERIF
+
+    tmp = os.path.join(VERIF, "out", "C18", "tmp-positioned")
+    shutil.rmtree(tmp, ignore_errors=True)
+    files = Files(tmp)
+    try:
+        for header in ("# header line\n", "{\"meta\": true}\n", "x" * 5000 + "\n", "[1, 2]\n"):
+            for dt in (DOC_TEXT, '[1, {"a": [2, 3]}, "s"]', '{"a": "caf\u00e9"}'):
+                path = files.write(header + dt)
+                for cmd, expr in (("path", "$..*"), ("pointer", ""), ("patch", [])):
+                    opts = {"debug": False, "pretty": False, "no_unicode_escape": False, "expr_file": False, "doc_stdin": True, "out_file": False, "no_type_checks": False, "uri_decode": False}
+                    expr_text = expr if isinstance(expr, str) else json.dumps(expr)
+                    want = library_outcome(cmd, expr_text, dt, opts)
+                    if want[0] != "ok":
+                        continue
+                    for dash in (False, True):
+                        argv = [cmd] + ([files.write(expr_text)] if cmd == "patch" else ["-q" if cmd == "path" else "-p", expr_text]) + (["-f", "-"] if dash else [])
+                        env = dict(os.environ)
+                        env["PYTHONPATH"] = REPO
+                        fd = os.open(path, os.O_RDONLY)
+                        try:
+                            os.lseek(fd, len(header.encode("utf-8")), os.SEEK_SET)
+                            p = subprocess.run([sys.executable, "-B", "-m", "jsonpath"] + argv, stdin=fd, capture_output=True, timeout=60, env=env, cwd=REPO)
+                        finally:
+                            os.close(fd)
+                        ctx.evaluation()
+                        ctx.case(h("positioned", header[:10], dt, cmd, dash), True)
+                        ctx.count("invocations_with_standard_input_positioned_past_a_header")
+                        out = p.stdout.decode("utf-8", "replace")
+                        if p.returncode != 0 or out != json.dumps(want[1]):
+                            ctx.violation("cli-does-not-read-what-is-left-on-standard-input:%s" % cmd, {"kind": "positioned-stdin"}, {"argv": [a if not a.startswith(tmp) else "<file>" for a in argv], "header": header[:40], "status": p.returncode, "stdout": out[:200], "stderr": p.stderr.decode("utf-8", "replace")[-300:], "expected": json.dumps(want[1])[:200]})
+                            return
+    finally:
+        shutil.rmtree(tmp, ignore_errors=True)
+
+
 def run_threads(ctx, rounds):
     """Invocations of the three sub-commands running at the same time in one process (a server or a test runner driving
     the tool's own parser and handlers from several threads), with injected yields inside the tool and the library.
@@ -468,6 +509,7 @@ def run(spec, ctx):
         return
     if spec.get("kind") == "terminal":
         run_terminal(ctx)
+        run_positioned_stdin(ctx)
         return
     cmd = spec["cmd"]
     tmp = os.path.join(VERIF, "out", "C18", "tmp-%s-%d" % (cmd, spec["part"]))
@@ -599,6 +641,9 @@ def replay(case, ctx):
         return
     if case.get("kind") == "terminal":
         run_terminal(ctx)
+        return
+    if case.get("kind") == "positioned-stdin":
+        run_positioned_stdin(ctx)
         return
     tmp = os.path.join(VERIF, "out", "C18", "tmp-replay")
     files = Files(tmp)
